@@ -1,5 +1,5 @@
 """C04 - already-canonical URLs are left untouched."""
-from ..rules import port, template
+from ..rules import order, port, template
 from ..rules.kindrules import k1, k2_k3, make_kinds
 from .common import quoter_audits, table_checks
 
@@ -12,7 +12,7 @@ def run(ctx):
         "(which character is literal, which escape is decoded), derived from the emission guards of both backends and "
         "compared with the RFC 3986 set of the component with lower bound = upper bound for the five requoters; "
         "escapes of bytes outside safe-minus-protected and of all bytes >= 128 are re-emitted unchanged (EM); the identity "
-        "fast paths return the input only when nothing changed (CH1, EM-*-RETURN). Not decided: composition with host/port "
+        "fast paths return the input only when nothing changed (CH1, EM-*-RETURN). (ORD2) the parsing constructor removes dot segments only under an authority. Not decided: composition with host/port "
         "canonicalisation (C16/C17).")
     pols, cfgs = quoter_audits(ctx, ch2=False)   # the dropped-surrogate clause (CH2) belongs to C01/C05
     table_checks(ctx, pols, cfgs, {"upper", "lower", "pct", "protect", "keep", "stable"})
@@ -21,6 +21,9 @@ def run(ctx):
     claim_in(ctx, ("K2", "K3"), constructor_function, "the parsing constructor")
     k2_k3(ctx, K)       # the parsing constructor applies requoters (not the escaping quoters) to the text it cuts out
     k1(ctx, K, only={"_url.encode_url"})
+    # a string whose dot segments stand under no authority is canonical: the constructor removes them only under one
+    claim_in(ctx, ("ORD2",), constructor_function, "the parsing constructor")
+    order.ord2(ctx, K)
     # the authority is re-assembled by the constructor: printer and splitter must be inverse, port 0 is not "absent"
     template.tpl2(ctx)
     port.sh5(ctx)
